@@ -550,6 +550,10 @@ func (fv *FuncVC) enterLoop(li *loopInfo) {
 			sortS = gs
 		}
 		st.ghost[g] = fv.freshConst("g."+mangle(g)+".l", sortS)
+		if g == "$brk" {
+			// implicit invariant: the allocation watermark never moves down (checked at back edges)
+			fv.assumeHere(le(fv.ghostVal(li.pre, "$brk"), st.ghost[g]))
+		}
 	}
 	// 2b. implicit frame invariant: at the loop head every havocked heap still differs
 	// from its entry version only inside the function's modifies clause (checked on
@@ -574,6 +578,7 @@ func (fv *FuncVC) enterLoop(li *loopInfo) {
 		fv.assumeHere(env.boolExpr(c.E, c.Pos))
 	}
 	fv.inferredLoopFacts(li)
+	li.head = fv.cur.clone()
 	// 4. decreases snapshot
 	li.decr0 = nil
 	for _, c := range fv.FC.LoopDecr {
@@ -635,13 +640,26 @@ func (fv *FuncVC) backEdge(li *loopInfo, from *ssa.BasicBlock) {
 	fv.curReach = fv.edge(from, li.Header)
 	env := fv.newEnv(fv.cur, fv.entry)
 	env.loopPre = li.pre
+	env.loopHead = li.head
 	env.cells = true
+	hk := 0
+	for _, c := range fv.FC.LoopHints {
+		if c.Loop != li.Ordinal {
+			continue
+		}
+		t := env.boolExpr(c.E, c.Pos)
+		fv.oblige(fmt.Sprintf("loop%d.hint", li.Ordinal), invLabel(c, hk), t, token.NoPos, c.Src)
+		hk++
+	}
 	for k, c := range fv.loopInvs(li) {
 		t := env.boolExpr(c.E, c.Pos)
 		fv.oblige(fmt.Sprintf("inv%d.preserve", li.Ordinal), invLabel(c, k), t, token.NoPos, c.Src)
 	}
 	if fv.FC.Opts["opt"] != "noframe" {
 		fv.frameObligations(fmt.Sprintf("inv%d.preserve", li.Ordinal), token.NoPos)
+	}
+	if hb, ok := li.head.ghost["$brk"]; ok {
+		fv.oblige(fmt.Sprintf("inv%d.preserve", li.Ordinal), "brk", le(hb, fv.ghostVal(fv.cur, "$brk")), token.NoPos, "allocation watermark is monotone")
 	}
 	i := 0
 	for _, c := range fv.FC.LoopDecr {
@@ -717,6 +735,11 @@ func (fv *FuncVC) checkFrame(env *Env, pos token.Pos) {
 			continue
 		}
 		if _, ok := byHeap["ghost:"+g]; ok {
+			continue
+		}
+		if g == "$brk" {
+			// allocating fresh memory is never a frame violation; the watermark only moves up
+			fv.oblige("frame", g, le(old, cur), pos, "allocation watermark is monotone")
 			continue
 		}
 		fv.oblige("frame", g, eq(cur, old), pos, "ghost "+g+" not in modifies clause")
